@@ -139,6 +139,17 @@ pub fn check_embedded(msg: &[u8], rdata_name_at: Option<usize>) -> (Vec<Finding>
                         }
                         if lr.ttl != r.ttl || lr.rdata.code() != r.rtype {
                             out.push(finding("C06|embedded|owner-cursor", format!("record {}: type/ttl ({}, {}) read, ({}, {}) follow the owner name", i, lr.rdata.code(), lr.ttl, r.rtype, r.ttl), mk_case()));
+                        } else if let (Some(sch), crate::refmodel::packet::RefRData::Typed { vals, .. }) = (crate::refmodel::schema::schema(r.rtype), &lr.rdata) {
+                            // every name inside the RDATA is the RFC decoding at its position
+                            if let Ok(d) = crate::refmodel::schema::decode_vals(sch, msg, r.rdata_start, r.rdata_end()) {
+                                for (j, (a, b)) in vals.iter().zip(d.vals.iter()).enumerate() {
+                                    if let (crate::refmodel::schema::Val::Name(x), crate::refmodel::schema::Val::Name(y)) = (a, b) {
+                                        if x != y {
+                                            out.push(finding("C06|embedded|rdata-name", format!("record {} ({}) field {}: {:?} vs RFC {:?} in {}", i, sch.mnemonic, j, x, y, crate::engine::truncate(&hex(msg), 300)), mk_case()));
+                                        }
+                                    }
+                                }
+                            }
                         }
                     }
                 }
@@ -456,6 +467,105 @@ pub fn run(ctx: &Ctx) {
         }
         ctx.merge(t);
         ctx.space("long length bytes: 0x3f/0x40/0x41/0x7f/0x80/0xa5/0xbf followed by that many bytes, decoded in place, via label+pointer and via a bare pointer, and as an owner name pointing into opaque RDATA", n, "complete");
+    }
+    // space 3c: names that need many decoding steps
+    {
+        let max_chain = ctx.tier.pick(2100usize, 8100usize);
+        let mut cases: Vec<(Vec<u8>, usize)> = Vec::new();
+        // chains of h label-less pointers ending at names of 1 / 126 / 127 labels
+        for end_labels in [1usize, 126, 127] {
+            let mut buf: Vec<u8> = Vec::new();
+            for i in 0..end_labels {
+                buf.extend_from_slice(&[1, b'f' + (i % 7) as u8]);
+            }
+            buf.push(0);
+            let mut prev = 0usize;
+            let lim = if end_labels == 1 { max_chain } else { 700 };
+            for _ in 0..lim {
+                let here = buf.len();
+                if here > 0x3fff {
+                    break;
+                }
+                buf.extend_from_slice(&[0xc0 | (prev >> 8) as u8, prev as u8]);
+                prev = here;
+                cases.push((buf.clone(), here));
+            }
+        }
+        // chains in which every hop adds a one-byte label (expanded length grows by 2 per hop)
+        {
+            let mut buf: Vec<u8> = vec![1, b'r', 0];
+            let mut prev = 0usize;
+            for i in 0..200usize {
+                let here = buf.len();
+                buf.extend_from_slice(&[1, b'a' + (i % 26) as u8, 0xc0 | (prev >> 8) as u8, prev as u8]);
+                prev = here;
+                cases.push((buf.clone(), here));
+            }
+        }
+        // k inline one-byte labels closed by a pointer to a one-label name / by the root
+        for k in 0..=130usize {
+            let mut buf: Vec<u8> = vec![1, b'r', 0];
+            let at = buf.len();
+            for i in 0..k {
+                buf.extend_from_slice(&[1, b'a' + (i % 26) as u8]);
+            }
+            let mut closed = buf.clone();
+            closed.extend_from_slice(&[0xc0, 0]);
+            cases.push((closed, at));
+            buf.push(0);
+            cases.push((buf, at));
+        }
+        // every label length 1..=63 x every second label length, before a pointer
+        for l1 in 1..=63usize {
+            for l2 in 0..=63usize {
+                let mut buf: Vec<u8> = vec![1, b'r', 0];
+                let at = buf.len();
+                buf.push(l1 as u8);
+                buf.extend(std::iter::repeat(b'l').take(l1));
+                if l2 > 0 {
+                    buf.push(l2 as u8);
+                    buf.extend(std::iter::repeat(b'm').take(l2));
+                }
+                buf.extend_from_slice(&[0xc0, 0]);
+                cases.push((buf, at));
+            }
+        }
+        let n_at = cases.len() as u64;
+        let chunks: Vec<&[(Vec<u8>, usize)]> = cases.chunks(128).collect();
+        par_shards(ctx, &chunks, |cs, t: &mut Tally| {
+            for (buf, at) in cs.iter() {
+                t.evals += 1;
+                let (f, nt, tag) = check_at(buf, *at);
+                if nt {
+                    t.nontrivial += 1;
+                }
+                t.outcome(tag);
+                if !f.is_empty() {
+                    ctx.violations(f);
+                }
+            }
+        });
+        ctx.space(&format!("many-step names (decoded by hook): chains of every length 1..={} label-less backward pointers ending at a 1-label name and 1..=700 ending at 126- and 127-label names, 1..=200 hops each adding a label, 0..=130 inline labels closed by a pointer or the root, every pair of label lengths (1..=63, 0..=63) before a pointer", max_chain), n_at, "complete");
+        let msgs = crate::gen::name_shape_messages(ctx.tier.pick(700usize, 2100usize));
+        let mchunks: Vec<&[Vec<u8>]> = msgs.chunks(64).collect();
+        par_shards(ctx, &mchunks, |ms, t: &mut Tally| {
+            for m in ms.iter() {
+                t.evals += 1;
+                let (mut f, nt, tag) = check_embedded(m, None);
+                if nt {
+                    t.nontrivial += 1;
+                }
+                t.outcome(tag);
+                if tag == "rejected" && walk(m).is_ok() {
+                    f.push(finding("C06|embedded|rejects-valid", format!("message whose names are all valid backward-pointer names rejected: {}", crate::engine::truncate(&hex(m), 300)), json!({"kind": "embedded", "msg": hex(m), "rdata_name_at": null, "expect_accept": true})));
+                }
+                // MX exchange: third record, when present and accepted, must be the RFC decoding
+                if !f.is_empty() {
+                    ctx.violations(f);
+                }
+            }
+        });
+        ctx.space("many-step names (as owner, MX exchange and question names inside messages)", msgs.len() as u64, "complete");
     }
     // space 4: embedded sweeps
     let emb: [u8; 12] = [0x00, 0x01, 0x02, 0x3f, 0x40, 0x80, 0xc0, 0x0c, 0x0d, 0x0e, 0x17, b'a'];
